@@ -19,7 +19,7 @@ RULE = ("seeded random histories (3-12 statements quick, up to 30 thorough) over
 ASSUMPTIONS = ["NumPy executing the same statements is the specification", "empty arrays are excluded from sharing/base checks",
                "view-producing functions are applied to tensors only (never to raw ndarrays)",
                "no backward()/clear_graph() inside a history (one graph epoch)"]
-TIERS = {"quick": {"cases": 4000, "nstmts": (3, 12)}, "thorough": {"cases": 300000, "nstmts": (4, 30)}}
+TIERS = {"quick": {"cases": 12000, "nstmts": (3, 12)}, "thorough": {"cases": 300000, "nstmts": (4, 30)}}
 FLOORS = {"quick": {"stmt_checks": 20000, "pair_checks": 100000, "inplace_stmts": 4000, "base_checks": 40000},
           "thorough": {"stmt_checks": 100000, "pair_checks": 500000, "inplace_stmts": 20000, "base_checks": 200000}}
 
